@@ -46,7 +46,7 @@ func (c15) NumCases(tier string, _ int64) int {
 	if tier == "thorough" {
 		return c15ExhCases + 40000
 	}
-	return c15ExhCases + 3000
+	return c15ExhCases + 8000
 }
 func (c15) Exhaustive(string) bool { return false }
 func (c15) Floors(string) []runner.Floor {
